@@ -131,7 +131,7 @@ class CsrHarness(Harness):
             elif s.kind == "status":
                 sig = dict(status=D.i(r.status), we=D.i(r.we), re=D.i(r.re))
                 # a status built from fields: the device drives the field signals, `status` is their documented composition
-                sig["sfields"] = [(D.i(getattr(r.fields, fn)), sz, o) for (fn, sz, o, p, _) in (s.fields or [])]
+                sig["sfields"] = [(D.i(getattr(r.fields, fn)), sz, o, rst) for (fn, sz, o, p, rst) in (s.fields or [])]
                 if not s.read_only:
                     sig["r"] = D.i(r.r)
             else:
@@ -197,8 +197,9 @@ class CsrHarness(Harness):
         for m, op in zip(self.regs, dv):
             s = m["sig"]
             if m["kind"] == "status" and s["sfields"]:
-                for (fi, sz, o) in s["sfields"]:
-                    v[fi] = (pat(op[1], m["size"]) >> o) & ((1 << sz) - 1)
+                for (fi, sz, o, rst) in s["sfields"]:
+                    if not rst:          # a field declared with a reset value is left undriven: it reads as that value (e.g. i2s rx_conf / tx_conf)
+                        v[fi] = (pat(op[1], m["size"]) >> o) & ((1 << sz) - 1)
             elif m["kind"] == "status":
                 v[s["status"]] = pat(op[1], m["size"])
             elif m["kind"] == "raw":
@@ -262,7 +263,7 @@ class CsrHarness(Harness):
                 r_, re_d = s0
                 cur = pat(op[1], m["size"])
                 if sg["sfields"]:
-                    cur = sum(((cur >> o) & ((1 << sz) - 1)) << o for (fi, sz, o) in sg["sfields"])     # gaps between fields read 0
+                    cur = sum((rst if rst else (cur >> o) & ((1 << sz) - 1)) << o for (fi, sz, o, rst) in sg["sfields"])     # gaps between fields read 0
                     if v[sg["status"]] != cur:
                         return env, ("field.offset", f"r{m['k']}.status exp {cur:#x} (fields at their declared offsets) got {v[sg['status']]:#x}"), 0
                 exp_we = int(bool(last and rd))
@@ -332,8 +333,8 @@ for b in (8, 32):
     reg(f"bank[bus{b},big] storage(fields: a@0:2, b@4:3 reset5, c@auto:2 reset2, d@auto:1 pulse) storage(2)", "quick",
         specs=[S("storage", fields=[("a", 2, 0, False, 0), ("b", 3, 4, False, 5), ("c", 2, None, False, 2), ("d", 1, None, True, 0)]), S("storage", 2)],
         busword=b, ordering="big")
-    reg(f"bank[bus{b},big] status(fields: a@0:2, b@3:3, c@{b}:2, d@auto:1) storage(2)", "quick",
-        specs=[S("status", fields=[("a", 2, 0, False, 0), ("b", 3, 3, False, 0), ("c", 2, b, False, 0), ("d", 1, None, False, 0)]), S("storage", 2)],
+    reg(f"bank[bus{b},big] status(fields: a@0:2, b@3:3 reset5 undriven, c@{b}:2, d@auto:1 reset1 undriven) storage(2)", "quick",
+        specs=[S("status", fields=[("a", 2, 0, False, 0), ("b", 3, 3, False, 5), ("c", 2, b, False, 0), ("d", 1, None, False, 1)]), S("storage", 2)],
         busword=b, ordering="big")
     reg(f"bank[bus{b},big,sorted] storage(4,n=2) storage({b+1}) status(3)", "quick",
         specs=[S("storage", 4, n=2), S("storage", b + 1), S("status", 3)], busword=b, ordering="big", sort=True)
